@@ -455,8 +455,14 @@ Section Soundness.
     Inv s -> run_pred input ilen cmatch preds fn s = (b, s') -> Inv s'.
   Proof.
     intros fn s b s' H. unfold run_pred.
-    destruct (nth (N.to_nat fn) preds PUnknownP) as [f' v|b' err| |]; intros E; inversion E; subst; auto.
-    destruct err; auto using Inv_add_err.
+    destruct (nth (N.to_nat fn) preds PUnknownP) as [f' v|b' err| |]; intros E.
+    - inversion E; subst; auto.
+    - inversion E; subst. destruct err; auto using Inv_add_err.
+    - (* PCustomP: in skip mode the helper advances over the matched text *)
+      destruct (cmatch (off (cur s))) as [len|] eqn:Ec; [|inversion E; subst; auto].
+      destruct (0 <? len); inversion E; subst; auto.
+      destruct (skip s); auto using Inv_custom_consume.
+    - inversion E; subst; auto.
   Qed.
 
   Lemma guard_and_fails : forall i fn s b s',
